@@ -403,7 +403,8 @@ def _ensure_object_loader(context: Optional['LoadSaveContext'], saved_state: SAV
         # 3) Fall back to default
         loader = default_loader
     else:
-        loader = default_loader.load_object(loader_identifier)
+        # what is recorded is the loader class (see `Savable.save`)
+        loader = default_loader.load_object(loader_identifier)()
 
     return context.copyextend(loader=loader)
 
@@ -565,7 +566,7 @@ class Savable:
     @staticmethod
     def get_custom_meta(saved_state: SAVED_STATE_TYPE, name: str) -> Any:
         try:
-            return saved_state[META][name]
+            return saved_state[META][META__USER][name]
         except KeyError:
             raise ValueError(f"Unknown meta key '{name}'")
 
